@@ -94,6 +94,14 @@ def run(run, ix, tier):
     from .kernel_rules import check_amplified_error
     run.rule('B-R10', floor=6, desc='amplified intermediates carry multiplier-dependent guard bits')
     check_amplified_error(run, ix, 'B-R10')
+    # H-R15: a complex number is a pair of raw mpf; mpc_* kernels take pairs, mpf_* kernels raw mpf
+    from ..shape import check_shapes
+    run.rule('H-R15', floor=700, desc='kernel arguments have the shape (raw mpf / complex pair) the kernel takes')
+    n = check_shapes(run, ix, 'H-R15', ('mpmath/libmp/libmpc.py', 'mpmath/libmp/libelefun.py',
+                                        'mpmath/libmp/gammazeta.py', 'mpmath/libmp/libhyper.py',
+                                        'mpmath/libmp/libmpf.py', CTXPY, 'mpmath/ctx_mp.py'))
+    if n < 700:
+        raise AnalysisError('H-R15 judged only %d kernel arguments' % n)
     # fadd/fsub/fmul: kernels receive the parsed pair
     for name in ('fadd', 'fsub', 'fmul'):
         f = ix.func('mpmath/ctx_mp.py', 'MPContext.%s' % name)
